@@ -52,6 +52,61 @@ func runC19(c *engine.Ctx) {
 				if b, ok := call.Common().Value.(*ssa.Builtin); ok && b.Name() == "delete" && isTable(call.Common().Args[0]) {
 					n++
 					held := li.HeldAt(in)
+					// the names to remove may have been selected beforehand with lo.PickBy / lo.FilterKeys (a predicate
+					// closure over the table): then the predicate's "true" paths are what decides a removal
+					var selector *ssa.Function
+					for cl := range engine.Provenance(call.Common().Args[1], engine.ProvOpts{}).CallIns {
+						if o := engine.CalleeObj(cl); o != nil && o.Pkg() != nil && strings.HasSuffix(o.Pkg().Path(), "samber/lo") {
+							for _, a := range cl.Call.Args {
+								if sf := funcValueOf(p, a); sf != nil && isTable(cl.Call.Args[0]) {
+									selector = sf
+								}
+							}
+						}
+					}
+					removalDecided := func(st *engine.PathState) bool {
+						present, kp := st.Truth(func(v ssa.Value) bool {
+							ex, ok := v.(*ssa.Extract)
+							if !ok || ex.Index != 1 {
+								return false
+							}
+							lk, ok := ex.Tuple.(*ssa.Lookup)
+							return ok && !isTable(lk.X)
+						})
+						if kp && !present {
+							return true
+						}
+						eq, ke := st.Truth(isDeepEqual)
+						return ke && !eq
+					}
+					if selector != nil {
+						ok1 := len(held) > 0
+						why := engine.QuietPaths(engine.PathCheck{Fn: selector, Sink: engine.IsReturn, Pred: func(st *engine.PathState) string {
+							r := st.Sink.(*ssa.Return)
+							if b, isC := engine.ConstBool(st.Resolve(r.Results[0])); isC && !b {
+								return ""
+							}
+							if !removalDecided(st) {
+								// the selector may return the condition itself (`return !ok || !DeepEqual(..)`)
+								rv := st.Resolve(r.Results[0])
+								src := engine.Provenance(rv, engine.ProvOpts{})
+								hasDE := false
+								for k := range src.Calls {
+									if k.Pkg() != nil && k.Pkg().Path() == "reflect" && k.Name() == "DeepEqual" {
+										hasDE = true
+									}
+								}
+								if _, isC := rv.(*ssa.Const); !isC && hasDE {
+									return ""
+								}
+								return "selected although present and not found different"
+							}
+							return ""
+						}})
+						c.Check(ok1 && why == "", spec.sym+">remove", in.Pos(), 3, []string{"selection predicate: " + p.FuncName(selector)},
+							"removal only for absent or changed entries (names selected by %s; %s)", p.FuncName(selector), why)
+						return
+					}
 					c.AllPaths(spec.sym+">remove", engine.PathCheck{Fn: f, Sink: engine.Is(in), KeepLoopFacts: true, Pred: func(st *engine.PathState) string {
 						if len(held) == 0 {
 							return "the table is modified without the manager's mutex"
